@@ -7,6 +7,7 @@ PROP = {
         "IdenaModel.RpcGate.gate_batch",
         "IdenaModel.RpcGate.gate_batch_all",
         "IdenaModel.RpcGate.batch_pointwise",
+        "IdenaModel.RpcGate.unkeyed_session_inert",
         "IdenaModel.RpcGate.unkeyed_elements_inert",
         "IdenaModel.RpcGate.keyed_as_ungated",
         "IdenaModel.RpcGate.keyed_in_batch_served_as_alone",
